@@ -35,7 +35,7 @@ func vGenTrigSetting(r *rand.Rand, signed bool, period time.Duration, nsamp int)
 		ts.EdgeTrigger = true
 		ts.EdgeRising = vChance(r, 0.7)
 		ts.EdgeFalling = !ts.EdgeRising || vChance(r, 0.3)
-		ts.EdgeLevel = int32(vPick(r, 50, 120, 300, 1000, 5000, 1))
+		ts.EdgeLevel = int32(vPick(r, 50, 120, 300, 1000, 5000, 1, 0)) // (0 is a legitimate level: every non-falling stretch triggers)
 		d = append(d, fmt.Sprintf("edge(r=%v,f=%v,L=%d)", ts.EdgeRising, ts.EdgeFalling, ts.EdgeLevel))
 	}
 	if level {
@@ -50,7 +50,7 @@ func vGenTrigSetting(r *rand.Rand, signed bool, period time.Duration, nsamp int)
 	}
 	if auto {
 		ts.AutoTrigger = true
-		samples := vPick(r, 1, nsamp/2+1, nsamp, nsamp+1, 2*nsamp+3, 5*nsamp, 17*nsamp)
+		samples := vPick(r, 1, nsamp/2+1, nsamp, nsamp+1, 2*nsamp+3, 5*nsamp, 17*nsamp, 0) // (0: records back to back)
 		ts.AutoDelay = time.Duration(samples) * period
 		if kind == 7 {
 			ts.AutoVetoRange = RawType(vPick(r, 5, 40, 400, 5000))
